@@ -9,7 +9,8 @@ cpu.prv after every event, final verdict).
 from vlib import core, emuhist
 
 CFG = {"C04": [("EmuMC_C04.cfg", "thread life-cycle, 2 threads, 2 CPUs + vCPU", None),
-               ("EmuMC_CK.cfg", "life-cycle and occupancy with kernel context switches (KCO/KCI) in between", 1500)],
+               ("EmuMC_CK.cfg", "life-cycle and occupancy with kernel context switches (KCO/KCI) in between", 1500),
+               ("EmuMC_C05X.cfg", "two looms whose threads have the same TIDs (TIDs are unique per loom only)", 600)],
        "C05": [("EmuMC_C05.cfg", "occupancy/affinity, 4 threads, 2 looms", 2500),
                ("EmuMC_C05X.cfg", "occupancy/affinity, 2 looms whose threads have the same TIDs", 1200),
                ("EmuMC_CK.cfg", "life-cycle and occupancy with kernel context switches (KCO/KCI) in between", 1500)]}
